@@ -131,12 +131,24 @@ class GMRF(Distribution):
         elif (bc_type == 'periodic') or (bc_type == 'neumann'):
             print("Warning (GMRF): Periodic and Neumann boundary conditions are experimental. Sampling using LinearRTO may not produce fully accurate results.")
             eps = np.finfo(float).eps
-            self._rank = self.dim - 1   #np.linalg.matrix_rank(self.L.todense())
+            # Rank of the precision = dim minus the dimension of the null space of the difference operator:
+            # order 0 is the identity, neumann order 2 annihilates constants and linear functions
+            # (tensorised in 2D), all other cases annihilate the constants only.
+            if order == 0:
+                nullity = 0
+            elif bc_type == 'neumann' and order == 2:
+                nullity = 2**self._physical_dim
+            else:
+                nullity = 1
+            self._rank = self.dim - nullity   #np.linalg.matrix_rank(self.L.todense())
             self._chol = sparse_cholesky(self._prec_op + np.sqrt(eps)*eye(self.dim, dtype=int)).T
             if (self.dim > config.MAX_DIM_INV):  # approximate to avoid 'excessive' time
                 self._logdet = 2*sum(np.log(self._chol.diagonal()))
             else:
-                self._L_eigval = splinalg.eigsh(self._prec_op.get_matrix(), self._rank, which='LM', return_eigenvectors=False)
+                if nullity == 0: # eigsh requires k < dim
+                    self._L_eigval = np.linalg.eigvalsh(self._prec_op.get_matrix().toarray())
+                else:
+                    self._L_eigval = splinalg.eigsh(self._prec_op.get_matrix(), self._rank, which='LM', return_eigenvectors=False)
                 self._logdet = sum(np.log(self._L_eigval))
         else:
             raise ValueError('bc_type must be "zero", "periodic" or "neumann"')
@@ -203,7 +215,7 @@ class GMRF(Distribution):
                 xi = np.random.randn(self.dim, N) + 1j*np.random.randn(self.dim, N)
             
             F = dft(self.dim, scale='sqrtn')   # unitary DFT matrix
-            eigv = np.hstack([self._L_eigval, self._L_eigval[-1]])  # repeat last eigval to complete dim
+            eigv = np.hstack([self._L_eigval, self._L_eigval[-1]])[:self.dim]  # repeat last eigval to complete dim
             L_sqrt = diags(np.sqrt(eigv)) 
             s = self.mean[:, np.newaxis] + (1/np.sqrt(self.prec))*np.real(F.conj() @ splinalg.spsolve(L_sqrt, xi))
             
